@@ -546,7 +546,7 @@ def run(ctx):
         'rule': '(gate) all 288 MOMENT field combinations (unset / set / ill-typed) through the real rule_10, every '
                 'accepted one through _delay at 38 boundary instants; '
                 '(a) 114 specifications x every hour of 2023-2028 (+-1 s around midnights, plus date specs); '
-                '(b) 7 engines x 5 boot instants, horizon 3 periods, all interleavings of timer / dispatch / reply / '
+                '(b) 9 engines (7 deprecated-style, 2 self-registering incl. same-named nested classes) x 5 boot instants, horizon 3 periods, all interleavings of timer / dispatch / reply / '
                 'reload; distinct_nontrivial = distinct (spec, whole days ahead) + recurrence states',
         'recurrence_states': states,
     }
